@@ -8,6 +8,7 @@ Section RuleProofs.
   Notation select := (select).
   Notation run_pass := (run_pass adv).
   Notation fire := (fire adv).
+  Notation fire_pos := (fire_pos adv).
 
   (* precedence: longer sort key first, then earlier rule *)
   Definition better (k : nat) (r : rule) (k' : nat) (r' : rule) : Prop :=
@@ -86,7 +87,7 @@ Section RuleProofs.
   Qed.
 
   (* where no rule applies the glyphs pass through unchanged *)
-  Theorem pass_through rules : forall fuel l i, (forall j r, In r rules -> rule_matches r l j = false) -> run_pass fuel rules l i = l.
+  Theorem pass_through positioning rules : forall fuel l i, (forall j r, In r rules -> rule_matches r l j = false) -> run_pass positioning fuel rules l i = l.
   Proof.
     induction fuel as [|f IH]; intros l i Hn; cbn [RuleModel.run_pass]; [reflexivity|].
     destruct (Nat.leb (length l) i); [reflexivity|].
@@ -109,17 +110,61 @@ Section RuleProofs.
     repeat (rewrite app_length || rewrite firstn_length || rewrite skipn_length). lia.
   Qed.
 
-  Theorem run_pass_fuel_enough rules : forall extra fuel l i, (length l - i < fuel)%nat -> run_pass (fuel + extra) rules l i = run_pass fuel rules l i.
+  (* positioning passes keep the length of the stream *)
+  Lemma upd_length : forall l k f, length (upd l k f) = length l.
+  Proof. induction l as [|x l IH]; intros [|k] f; cbn [upd length]; try reflexivity; rewrite IH; reflexivity. Qed.
+  Lemma attach_length l c t : length (attach l c t) = length l.
+  Proof.
+    unfold attach. destruct (nth_error l c) as [sc|]; [|reflexivity]. destruct (nth_error l t) as [st_|]; [|reflexivity].
+    destruct (Nat.eqb c t || _); [reflexivity|].
+    set (l1 := match s_par sc with Some p => _ | None => l end).
+    assert (H1 : length l1 = length l) by (unfold l1; destruct (s_par sc); [rewrite !upd_length|]; reflexivity).
+    destruct (Nat.ltb _ 100 && _); [rewrite !upd_length|]; exact H1.
+  Qed.
+  Lemma apply_acts_pos_length orig st j : forall acts l, length (apply_acts_pos adv orig st j acts l) = length l.
+  Proof.
+    induction acts as [|a rest IH]; intros l; cbn [apply_acts_pos]; [reflexivity|]. rewrite IH.
+    destruct a; try (rewrite upd_length; reflexivity); try reflexivity.
+    - destruct (if (Z.of_nat j + ref <? 0)%Z then None else nth_error orig (Z.to_nat (Z.of_nat j + ref))); [rewrite upd_length|]; reflexivity.
+    - destruct (Z.of_nat (st + j) + ref <? 0)%Z; [reflexivity | apply attach_length].
+  Qed.
+  Lemma apply_items_pos_length orig st : forall n j acts l, length (apply_items_pos adv orig st j n acts l) = length l.
+  Proof. induction n as [|n IH]; intros j acts l; cbn [apply_items_pos]; [reflexivity|]. rewrite IH, apply_acts_pos_length. reflexivity. Qed.
+
+  Lemma fire_pos_progress r l i l' i' : rule_matches r l i = true -> fire_pos r l i = (l', i') ->
+    (i' <= length l')%nat /\ (length l' - i' < length l - i)%nat.
+  Proof.
+    unfold rule_matches, RuleModel.fire_pos. intros Hm E. apply andb_prop in Hm. destruct Hm as [Hm _]. apply andb_prop in Hm. destruct Hm as [Hm H3]. apply andb_prop in Hm. destruct Hm as [H1 H2].
+    apply Nat.leb_le in H1. apply Nat.ltb_lt in H2. apply matches_from_length in H3. rewrite skipn_length in H3. unfold r_sort in *.
+    injection E as <- <-. rewrite apply_items_pos_length. lia.
+  Qed.
+
+  Theorem run_pass_fuel_enough positioning rules : forall extra fuel l i, (length l - i < fuel)%nat -> run_pass positioning (fuel + extra) rules l i = run_pass positioning fuel rules l i.
   Proof.
     intros extra. induction fuel as [|f IH]; intros l i Hf; [lia|]. cbn [Nat.add RuleModel.run_pass].
     destruct (Nat.leb_spec (length l) i) as [Hle|Hgt]; [reflexivity|].
     destruct (select rules l i 0 None) as [[kr r]|] eqn:E.
-    - destruct (select_sound _ _ _ _ _ E) as [_ [Hm _]]. destruct (fire r l i) as [l' i'] eqn:Ef.
-      destruct (fire_progress _ _ _ _ _ Hm Ef) as [_ Hp]. apply IH. lia.
+    - destruct (select_sound _ _ _ _ _ E) as [_ [Hm _]]. destruct positioning.
+      + destruct (fire_pos r l i) as [l' i'] eqn:Ef. destruct (fire_pos_progress _ _ _ _ _ Hm Ef) as [_ Hp]. apply IH. lia.
+      + destruct (fire r l i) as [l' i'] eqn:Ef. destruct (fire_progress _ _ _ _ _ Hm Ef) as [_ Hp]. apply IH. lia.
     - apply IH. lia.
   Qed.
 
+  (* a positioning pass never changes the number of slots *)
+  Theorem positioning_keeps_length rules : forall fuel l i, length (run_pass true fuel rules l i) = length l.
+  Proof.
+    induction fuel as [|f IH]; intros l i; cbn [RuleModel.run_pass]; [reflexivity|].
+    destruct (Nat.leb (length l) i); [reflexivity|].
+    destruct (select rules l i 0 None) as [[kr r]|]; [|apply IH].
+    unfold RuleModel.fire_pos. rewrite IH. apply apply_items_pos_length.
+  Qed.
+
   (* passes run in font order over the previous pass's output *)
-  Theorem run_passes_app : forall p1 p2 l, run_passes adv (p1 ++ p2) l = run_passes adv p2 (run_passes adv p1 l).
-  Proof. induction p1 as [|p r IH]; intros p2 l; cbn [app RuleModel.run_passes]; [reflexivity | apply IH]. Qed.
+  Theorem run_passes_app : forall p1 p2 k ns l,
+    run_passes_from adv k ns (p1 ++ p2) l = run_passes_from adv (k + length p1) ns p2 (run_passes_from adv k ns p1 l).
+  Proof.
+    induction p1 as [|p r IH]; intros p2 k ns l; cbn [app RuleModel.run_passes_from length].
+    - rewrite Nat.add_0_r. reflexivity.
+    - rewrite IH. replace (S k + length r)%nat with (k + S (length r))%nat by lia. reflexivity.
+  Qed.
 End RuleProofs.
